@@ -32,7 +32,7 @@ func (c config) String() string {
 // scripts: per driver, a list of datagram batches; a batch is a list of datagram payloads.
 var scripts = [][][][]string{
 	// 0: two drivers, one datagram each, colliding counter/timer/set
-	{{{"c:1|c\nt:2|ms\ns:x|s"}}, {{"c:3|c|@0.5\nt:4|ms|@0.5\nt:8|ms|#z|@0.25\ns:y|s"}}},
+	{{{"c:1|c\nt:2|ms\ns:x|s"}}, {{"c:3|c|@0.5\nt:4|ms|@0.5\nt:8|ms|#z|@0.25\ns:y|s\nf:2.5|c|@0.5"}}},
 	// 1: same plus a series on the other shard and a repeated member
 	{{{"c:1|c\nother:5|c"}}, {{"c:3|c|@0.5\ns:x|s"}, {"s:x|s\nother:1|c"}}},
 	// 2: one driver, two batches of two datagrams
